@@ -355,7 +355,8 @@ def run(ctx: vlib.Ctx):
                 {"branch", "calls"}, {"attrs", "branch"}, {"lists", "branch"}, {"branch", "calls", "early", "andor"},
                 {"branch", "loops"}, {"branch", "loops", "lists", "calls"},
                 {"lists", "nested"}, {"lists", "nested", "calls"}, {"lists", "nested", "calls", "branch"},
-                {"calls", "shadowing"}, {"calls", "shadowing", "branch"}]
+                {"calls", "shadowing"}, {"calls", "shadowing", "branch"},
+                {"condbound"}, {"condbound", "branch", "calls"}, {"condbound", "globals", "branch"}]
     for _ in range(n_cases):
         cases.append(_tolist(core.gen_case(ctx.rng, ctx.rng.choice(profiles))))
     scratch = ctx.mkscratch()
